@@ -239,6 +239,7 @@ def make_machine():
         @rule(name=NAMES, out=out_specs())
         def save(self, name, out):
             self.case["saves"].append([name, out])
+            self.ctx.current_case = self.case
             self.sim.save(name, out, self.res)
 
         @precondition(lambda self: self.sim.model)
@@ -247,6 +248,7 @@ def make_machine():
             names = sorted(self.sim.model)
             name = names[i % len(names)]
             self.case["saves"].append([name, out])
+            self.ctx.current_case = self.case
             self.sim.save(name, out, self.res)
 
         @invariant()
@@ -354,7 +356,10 @@ def _check_command(case: dict) -> Result:
 def command_cases(draw):
     cmd = draw(st.sampled_from(["solve", "greedy", "best_states", "best_states", "ugreedy"]))
     n = 3
-    names = draw(st.lists(st.sampled_from(["r1", "r2", "r3"]), min_size=2, max_size=3))
+    # run names as users write them: plain, hyper-parameter style with dots, ISO timestamps differing in the fraction
+    pool = draw(st.sampled_from([["r1", "r2", "r3"], ["lr0.001", "lr0.002", "lr0.001"], ["a", "a.x", "a.y"],
+                                 ["2024-01-01T00:00:00.123", "2024-01-01T00:00:00.124", "2024-01-01T00:00:01"], ["x y", "ü", "r1"]]))
+    names = draw(st.lists(st.sampled_from(pool), min_size=2, max_size=3))
     return {"kind": "command", "command": cmd, "n": n, "limit": draw(st.integers(1, 2)), "seed": draw(st.integers(0, 10**6)),
             "generator": draw(st.sampled_from(["factory", "noisy_factory", "xos", "graph_random"])),
             "gap": draw(st.sampled_from(["exploitability", "l1_norm"])), "computer": draw(st.sampled_from(["superadditive", "superadditive_cached"])),
